@@ -88,6 +88,8 @@ type source struct {
 	tl0     int
 	flex    bool
 	pktsPer int
+	parts   bool // VP8: some frames carry several partitions
+	force   int  // >= 0: temporal layer of the next frame (overrides the pattern)
 }
 
 func (s *source) nextFrame(forceKey bool) []pkt {
@@ -99,9 +101,14 @@ func (s *source) nextFrame(forceKey bool) []pkt {
 		switch s.ntid {
 		case 2:
 			tid = s.frame % 2
-		default:
+		case 3:
 			tid = []int{0, 2, 1, 2}[s.frame%4]
+		default:
+			tid = []int{0, 3, 2, 3, 1, 3, 2, 3}[s.frame%8]
 		}
+	}
+	if !key && s.force >= 0 {
+		tid = s.force
 	}
 	if key {
 		s.frame = 0
@@ -130,7 +137,14 @@ func (s *source) nextFrame(forceKey bool) []pkt {
 				Marker: sid == nsid-1 && i == n-1}
 			var payload []byte
 			if strings.EqualFold(s.codec, "video/vp8") {
-				d := common.VP8Desc{X: true, S: i == 0, I: true, L: true, T: s.ntid > 1 || r.Intn(3) == 0, K: false, M: s.m15,
+				part := 0
+				startBit := i == 0
+				if i > 0 && s.parts && r.Intn(2) == 0 {
+					// a later VP8 partition starting in this packet: S=1, PartID>0 (not a frame start)
+					part = r.Range(1, 7)
+					startBit = true
+				}
+				d := common.VP8Desc{X: true, S: startBit, PartID: part, I: true, L: true, T: s.ntid > 1 || r.Intn(3) == 0, K: false, M: s.m15,
 					PictureID: s.pid, TL0: s.tl0, TID: tid, Y: tid > 0 && r.Intn(2) == 0,
 					N: tid == s.ntid-1 && s.ntid > 1,
 					Keyframe: key, PayloadLen: common.Pick(r, 1, 5, 20, 100), Seed: s.seq}
@@ -158,13 +172,56 @@ func gen(t *common.Trace, e common.Engine, r *common.Rng, thorough bool) {
 		ncases = 2500
 		nframes = 400
 	}
+	// one long history: a three-temporal-layer VP8 stream to a receiver held on T0, so that more than
+	// 65536 packets are withheld (the 16-bit offset wraps to 0 while the picture-id shift does not)
+	{
+		t.Case("long-withheld-run")
+		e.Reset()
+		do := func(f string, args ...any) string { return common.Do(t, e, fmt.Sprintf(f, args...)) }
+		do("newdown video/vp8 16")
+		do("setmax 9600")
+		do("setrate 2000000")
+		src := &source{force: -1, r: r, codec: "video/vp8", seq: r.Intn(65536), ts: 1, pid: r.Intn(32768), m15: true, ntid: 3, nsid: 1, pktsPer: 1}
+		withheld := 0
+		target := 65536
+		done := 0
+		for fi := 0; done < 40; fi++ {
+			if withheld >= target {
+				done++
+			}
+			// close to a multiple of 65536 withheld packets: steer the source so that a forwarded
+			// frame arrives exactly when the 16-bit offset is back at 0
+			src.pktsPer = 2
+			if withheld >= target-8 {
+				src.pktsPer = 1
+			}
+			if withheld >= target-8 && withheld < target {
+				src.force = 2
+			} else if withheld == target && done == 1 {
+				src.force = 0
+			} else {
+				src.force = -1
+			}
+			for _, p := range src.nextFrame(fi == 0) {
+				if strings.HasPrefix(do("feed %s", p.hex), "none") {
+					withheld++
+				}
+			}
+			if fi < 12 {
+				do("adjust")
+			}
+			if thorough && done == 39 && target == 65536 {
+				target, done = 131072, 0
+			}
+		}
+	}
 	for ci := 0; ci < ncases; ci++ {
 		t.Case(fmt.Sprint(ci))
 		e.Reset()
 		do := func(f string, args ...any) string { return common.Do(t, e, fmt.Sprintf(f, args...)) }
 		codec := common.Pick(r, "video/vp8", "video/vp8", "video/vp9", "video/vp9", "video/VP8", "audio/opus", "video/h264")
 		do("newdown %s %d", codec, common.Pick(r, 16, 64, 256))
-		src := &source{r: r, codec: codec, seq: r.Intn(65536), ts: uint32(r.U64()), pid: r.Intn(32768),
+		src := &source{force: -1, r: r, codec: codec, seq: r.Intn(65536), ts: uint32(r.U64()), pid: r.Intn(32768),
 			m15: r.Intn(4) != 0, ntid: r.Range(1, 3), nsid: r.Range(1, 3), flex: r.Intn(3) == 0,
 			pktsPer: common.Pick(r, 1, 2, 4)}
 		if r.Intn(3) == 0 {
@@ -202,7 +259,36 @@ func gen(t *common.Trace, e common.Engine, r *common.Rng, thorough bool) {
 			}
 		}
 		n := r.Range(nframes/3, nframes)
+		src.parts = r.Intn(3) == 0
+		growAt := -1
+		if r.Intn(2) == 0 {
+			growAt = r.Range(5, n) // a new top layer appears in the middle of the stream
+		}
 		for fi := 0; fi < n; fi++ {
+			if growAt > 8 && fi == growAt-6 && r.Bool() {
+				// push the receiver below the top layer ...
+				do("setmax 9600")
+				do("setrate 2000000")
+				do("adjust")
+			}
+			if growAt > 8 && fi == growAt-1 && r.Bool() {
+				// ... and leave an up-switch pending when the new top layer appears
+				do("setmax 4000000")
+				do("setremb -1")
+				do("setrate 1000")
+				do("adjust")
+			}
+			if fi == growAt {
+				if r.Bool() && src.ntid < 4 {
+					src.ntid++
+					if strings.EqualFold(codec, "video/vp8") && src.ntid > 3 {
+						src.ntid = 3
+					}
+				} else if src.nsid < 4 {
+					src.nsid++
+				}
+				t.Count("source:new-top-layer")
+			}
 			for _, p := range src.nextFrame(false) {
 				x := r.Intn(100)
 				switch {
